@@ -422,6 +422,57 @@ class non_kern_cells_keep_their_text:
         return text == cell or text == re.sub(r'^(==?)\d*[ab]*-?', r'\1', cell)
 
 
+OWN_BY_HEADER = {'**text': 'LYRICS', '**dynam': 'DYNAMICS', '**dyn': 'DYNAMICS', '**harm': 'HARMONY', '**mxhm': 'HARMONY', '**fing': 'FINGERING'}
+
+
+def shifting_record(score):
+    """a spine-operator record in which one spine joins while another one splits (the columns to the side shift, their number stays)
+    with a non-kern spine among the shifted columns"""
+    for r in score.rows:
+        if r.kind == 'ops':
+            texts = [c.text for c in r.cells]
+            if '*^' in texts and '*v' in texts:
+                lo, hi = min(texts.index('*^'), texts.index('*v')), max(len(texts) - 1 - texts[::-1].index('*^'), len(texts) - 1 - texts[::-1].index('*v'))
+                if any(score.headers[c.spine] != '**kern' for c in r.cells[lo:hi + 1]):
+                    return True
+    return False
+
+
+@contract(None, props=['C18', 'C02'], bounded=BOUND + '; scores of mixed spine types (known and unknown headers); up to 30 draws per case to obtain a record in which one '
+                                                       'spine joins while another splits, so that a non-kern spine changes its column while the number of columns stays')
+class non_kern_spines_in_documents:
+    """C18 at document level (C02: the cell belongs to the spine it descends from, not to the column it stands in): in a well-formed
+    score every cell of a lyrics / dynamics / harmony / fingering / unknown spine that is not shared structure is imported -- without
+    any error -- as a token with the verbatim text and that spine type's own category, wherever the spine moves."""
+    def inputs(g):
+        rng = g.seeded_rng('doc.seed')
+        score = None
+        for _ in range(30):
+            score = gen_score(rng, spines=rng.choice([3, 4, 4]), unknown_types=True, nested=False)
+            if shifting_record(score):
+                break
+        return {'score': score}
+
+    def post_own_category_wherever_the_spine_moves(score):
+        doc, errs = kp.loads(score.text())
+        if len(errs) != 0:
+            return False
+        for ri, r in enumerate(score.rows):
+            if r.kind != 'data':
+                continue
+            nodes = doc.tree.stages[ri + 1]
+            if len(nodes) != len(r.cells):
+                return False
+            for n, c in zip(nodes, r.cells):
+                h = score.headers[c.spine]
+                if h == '**kern' or c.kind != 'text':
+                    continue
+                want = OWN_BY_HEADER.get(h, 'OTHER')
+                if n.token.encoding != c.text or n.token.category.name != want or n.header_node.token.encoding != h:
+                    return False
+        return True
+
+
 # ================================================================================================================ C20
 @contract(None, props=['C20'], bounded=BOUND + '; LF / CRLF line ends, with / without final newline, non-ASCII lyrics; single-file and directory modes')
 class file_and_cli_paths_equal_api:
@@ -638,7 +689,9 @@ class excerpt_is_self_contained:
     def requires(score, a, b):
         # core class: the excerpt does not start inside a split (every measure start row has one cell per spine)
         starts = measures_of(score)
-        return len(score.rows[starts[a - 1]].cells) == len(score.headers)
+        # (one cell per spine that is still alive: a spine may have ended earlier)
+        cells = score.rows[starts[a - 1]].cells
+        return len({c.spine for c in cells}) == len(cells)
 
     def post_well_formed_and_reimports(score, a, b):
         doc, _ = kp.loads(score.text())
@@ -701,7 +754,7 @@ class excerpt_between_signature_changes:
         first = starts[a - 1]
         last = (starts[b] - 1) if b < len(starts) else len(score.rows) - 1
         inside = [ri for ri, r in enumerate(score.rows) if r.kind == 'interp' and first <= ri <= last and ri > starts[0]]
-        if len(score.rows[first].cells) != len(score.headers) or inside:
+        if len({c.spine for c in score.rows[first].cells}) != len(score.rows[first].cells) or inside:
             return False
         # the spines have signatures of the same kinds in force at the start of the excerpt (a clef written in one sub-spine only
         # leaves the spines with different sets: known finding 'unequal signature sets', see excerpt_known_classes)
